@@ -329,12 +329,15 @@ def streams(tier, rng):
     #     Data PDU edited through the accessor
     cases = []
     for _ in range(3000 if big else 500):
-        ops = []
+        ops, used = [], []
         for _ in range(rng.randrange(1, 11)):
             c = rng.choice([1, 1, 1, 2, 3, 4, 5, 6, 6, 7])
-            if c == 1:
+            if c == 1 and used and rng.random() < 0.35:
+                ops.append([1, rng.randrange(4)] + rng.choice(used))      # the same octets arrive again
+            elif c == 1:
                 k = rng.choice([0, 0, rng.randrange(8)])
                 b = _valid_packed(rng, k)[1]
+                used.append(list(b))
                 r = rng.random()
                 if r < 0.1: b = b[:rng.randrange(len(b))]
                 elif r < 0.15: b = list(b); b[0] ^= 0x40
@@ -456,6 +459,10 @@ def _check_holder_history(ops, body):
             held = j if isinstance(j, int) else None
             if state[1] != [held if held is not None else -1]:
                 return ("C12/PduFactory.from_raw/wrong-kind", "%s: octets denote class %s, holder holds class index %s" % (where, j, state[1]))
+            if held == 0:
+                r = h7._check_decoded(l[2:], [[0]] + state[2:9], "fold-in")
+                if r:
+                    return ("C12/PduFactory.from_raw/not-what-the-octets-say", r[1])
             clean = al[1]
         elif k == 2 and status[0] == 0:
             held, clean = None, None
@@ -514,6 +521,11 @@ def oracle(case, ires, sres):
         (s1, s2), rest = _split_states(ires[1:], 2)
         if a1 is None or a2 is None:
             return ("C12/PduFactory.from_raw/accepts-in-a-row", "octets the factory refuses on their own were decoded")
+        for b, st_ in ((a[0], s1), (a[1], s2)):
+            if st_[1] == [0]:
+                r = h7._check_decoded(b, [[0]] + st_[2:9], "fold-in")
+                if r:
+                    return ("C12/PduFactory.from_raw/not-what-the-octets-say", r[1])
         if s1 != a1[0] or rest[0] != a1[1]:
             return ("C12/PduFactory.from_raw/earlier-pdu-changed", "the first PDU, looked at after the second was decoded: %s (packs to %s..); "
                     "decoded alone: %s (packs to %s..)" % (str(s1)[:200], rest[0][:16], str(a1[0])[:200], (a1[1] or [])[:16]))
